@@ -113,10 +113,12 @@ fn c08_main(args: &Args) {
 }
 
 fn write_hashes(args: &Args, hashes: &BTreeSet<u64>) {
+    // sorted, fixed-width hex lines: the orchestrator merges the workers' files with
+    // `sort -m -u` and never holds all hashes in memory
     if let Some(path) = args.extra.get("hashes") {
-        let mut buf = Vec::with_capacity(hashes.len() * 8);
+        let mut buf = String::with_capacity(hashes.len() * 17);
         for h in hashes {
-            buf.extend_from_slice(&h.to_le_bytes());
+            buf.push_str(&format!("{:016x}\n", h));
         }
         std::fs::write(path, buf).expect("write hashes");
     }
